@@ -28,6 +28,7 @@ type Ob struct {
 	Where   string  `json:"where,omitempty"`
 	Detail  string  `json:"detail"`
 	Insts   int     `json:"inspected"`
+	pos     token.Pos
 }
 
 type KnownFinding struct {
@@ -89,7 +90,7 @@ func (r *Report) add(rule, key string, v Verdict, pos token.Pos, insts int, form
 	if r.W != nil && pos.IsValid() {
 		where = r.W.Pos(pos)
 	}
-	o := &Ob{Key: full, Rule: r.Prop + "." + rule, Verdict: v, Where: where, Detail: fmt.Sprintf(format, a...), Insts: insts}
+	o := &Ob{Key: full, Rule: r.Prop + "." + rule, Verdict: v, Where: where, Detail: fmt.Sprintf(format, a...), Insts: insts, pos: pos}
 	r.Obs = append(r.Obs, o)
 	r.ruleSeen[rule]++
 	return o
